@@ -185,10 +185,45 @@ def declare(reg):
     reg.contract("<random>", "random.randrange", params={"a": "int", "b": "int"}, ret="int", ensures={"range": "a <= result and result < b"}, **T, note="stdlib")
     reg.contract("<asyncio>", "Queue.get", params={"self": "ref:Queue"}, ret="ref:IMAPClientCommand", yields=True, **T,
                  note="A-ASYNC: waits for the next queued command (may be cut short by the enclosing asyncio.timeout)")
-    reg.contract(P, "Mailbox._cleanup_executing_tasks", params={"self": "ref:Mailbox"}, modifies=["self.executing_tasks"], **T,
-                 note="assumed: drops completed commands from executing_tasks")
-    reg.contract(P, "Mailbox.command_can_proceed", params={"self": "ref:Mailbox", "imap_cmd": "ref:IMAPClientCommand"}, modifies=["self.executing_tasks"],
-                 yields=True, **T, note="assumed: polls would_conflict until the command may run (would_conflict itself is proved under C10)")
+    reg.contract("<asyncio>", "Queue.task_done", params={"self": "ref:Queue"}, **T, note="A-ASYNC: bookkeeping for Queue.join (which nothing awaits); the queued items are untouched")
+    # the list of commands the admission relation (would_conflict, C10) compares a new command with: a command may leave it only once it has completed
+    reg.contract(
+        P, "Mailbox._cleanup_executing_tasks", params={"self": "ref:Mailbox"},
+        ensures={
+            "running-kept": "forall(lambda j: implies(0 <= j and j < len(old(self.executing_tasks)) and not old(self.executing_tasks)[j].completed, old(self.executing_tasks)[j] in self.executing_tasks))",
+            "only-completed-dropped": "forall(lambda j: implies(0 <= j and j < len(self.executing_tasks), not self.executing_tasks[j].completed and self.executing_tasks[j] in old(self.executing_tasks)))",
+            "none-invented": "len(self.executing_tasks) <= len(old(self.executing_tasks))",
+        },
+        raises={},
+        modifies=["self.executing_tasks"],
+        loops={0: {"invariant": {"list-kept": "same(self.executing_tasks, lpre(self.executing_tasks))"}}},
+        props=["C10"],
+    )
+    HD_ = "('Deleted' in self.sequences and card(get(self.sequences, 'Deleted')) > 0)"
+    reg.contract(
+        P, "Mailbox.command_can_proceed", params={"self": "ref:Mailbox", "imap_cmd": "ref:IMAPClientCommand"},
+        ensures={
+            # the admission gate: when the management task is told to go ahead, the command does not have to be serialised behind
+            # anything still on the executing list -- there is no suspension point between the last look and the return
+            "admitted-is-safe": f"forall(lambda j: implies(0 <= j and j < len(self.executing_tasks), not must_conflict(imap_cmd, self.executing_tasks[j], {HD_})))",
+            # a command that is still running has not been forgotten (it would stop counting for every later admission)
+            "running-kept": "forall(lambda j: implies(0 <= j and j < len(old(self.executing_tasks)) and not old(self.executing_tasks)[j].completed, old(self.executing_tasks)[j] in self.executing_tasks))",
+            "nothing-added": "forall(lambda j: implies(0 <= j and j < len(self.executing_tasks), self.executing_tasks[j] in old(self.executing_tasks)))",
+        },
+        raises={"RuntimeError": None},
+        modifies=["self.executing_tasks"],
+        loops={0: {"invariant": {
+            "running-kept": "forall(lambda j: implies(0 <= j and j < len(old(self.executing_tasks)) and not old(self.executing_tasks)[j].completed, old(self.executing_tasks)[j] in self.executing_tasks))",
+            "nothing-added": "forall(lambda j: implies(0 <= j and j < len(self.executing_tasks), self.executing_tasks[j] in old(self.executing_tasks)))",
+        }}, 1: {"invariant": {
+            "running-kept": "forall(lambda j: implies(0 <= j and j < len(old(self.executing_tasks)) and not old(self.executing_tasks)[j].completed, old(self.executing_tasks)[j] in self.executing_tasks))",
+            "nothing-added": "forall(lambda j: implies(0 <= j and j < len(self.executing_tasks), self.executing_tasks[j] in old(self.executing_tasks)))",
+        }}},
+        is_async=True,
+        props=["C10"],
+        note="the commands on the executing list run while this coroutine sleeps: the flags `completed` and the mailbox's sequences are not havocked at those "
+             "suspension points (writer exclusivity, DESIGN 12.2), so `running-kept` is stated over the entry values of `completed`",
+    )
     REL = "cur_path('imap_cmd', 'ready.g_set', True)"
     reg.contract(
         P, "Mailbox.management_task", params={"self": "ref:Mailbox"},
@@ -197,6 +232,10 @@ def declare(reg):
             # wake-up obligation: whatever happened in an iteration (normal admission, BAD for an unresolvable set, resync),
             # the command taken from the queue in that iteration has been released
             "dequeued-command-released": REL,
+            # admission is recorded (C10): a command that was released without an error is on the executing list, where would_conflict()
+            # sees it, until it has completed (the default values stand for 'no command has been dequeued yet')
+            "admitted-command-registered": "not is_none(cur_path('imap_cmd', 'resolve_error', None)) or cur_path('imap_cmd', 'completed', True) "
+                                           "or cur('imap_cmd', self.executing_tasks[0]) in self.executing_tasks",
         }}},
         modifies=["self.executing_tasks", "IMAPClientCommand.msg_set_as_set", "IMAPClientCommand.resolve_error", "Event.g_set", "Queue.g_items",
                   "self.last_resync", "self.mtime", "self.optional_resync", "self.msg_keys", "self.uids", "self.num_msgs", "self.num_recent", "self.sequences", "self.next_uid",
@@ -207,7 +246,7 @@ def declare(reg):
                # which would make the second message-set resolution infallible and its BAD branch dead
                "forget_post_of": {"check_new_msgs_and_flags": "*"}},
         is_async=True,
-        props=["C06"],
+        props=["C06", "C10"],
         note="the preconditions of the resync/pack callees (environment assumption E1, Inv(Mailbox)) are assumed at their call sites here; "
              "exceptions other than Bad raised by callees between dequeue and release are not modelled (the blanket `except Exception: ignore` would then leave the command waiting)",
     )
